@@ -91,6 +91,15 @@ def _case(draw):
             j["qd"] = [draw(gen.f(-2, 2)) for _ in range(6)]
         j["given"] = draw(st.integers(0, 5)) > 0  # sometimes the joint is left out of the dictionaries (defaults)
         joints.append(j)
+    if draw(st.integers(0, 5)) == 0:
+        # a structured, axis-aligned tree: unrotated joint origins, coordinate-axis joint axes, revolute joints at angle 0
+        # (relative rotations are then exactly zero, not zero up to round-off)
+        for j in joints:
+            j["origin"]["rpy"] = [0.0, 0.0, 0.0]
+            if j["type"] in ("revolute", "continuous", "prismatic"):
+                j["axis"] = draw(st.sampled_from([[1.0, 0, 0], [0, 1.0, 0], [0, 0, 1.0]]))
+            if j["type"] in ("revolute", "continuous") and draw(st.booleans()):
+                j["q"] = 0.0
     # massless marker frames (tcp, camera, ...) attached by fixed joints; they are leaves and carry no body. The position
     # in the file decides where they appear among their parent's children.
     markers = [{"parent": draw(st.integers(0, nlinks - 1)), "at": draw(st.integers(0, max(0, nlinks - 1))), "origin": draw(_pose())}
